@@ -9,6 +9,7 @@ import (
 //zzv:bound T1 = real SafeCmdExecution for every modelled outcome of starting a root-controlled command: exit 0, non-zero exit (*exec.ExitError, with an empty / unterminated / one-line / two-line stderr), cannot be started (*fs.PathError: not executable / bad format), killed at the deadline: the call does not panic
 //zzv:bound T2 = same: the result is either (trimmed output, nil) or ("", non-nil error)
 //zzv:bound T4 = same, plus the two outcomes in which a descendant of the command keeps the output pipe open beyond any bound (a grandchild left behind by a command that exits 0; the child of a shell that is killed at the deadline): the duration of the call is bounded. Decided on the documented contract of os/exec: Output() reads the pipes until EOF, unbounded, unless Cmd.WaitDelay is non-zero; natively the replay measures wall-clock time (limit 3 s for the 2 s timeout, descendants hold the pipe for 4 s)
+//zzv:bound T5 = (packages fans and internal) two consecutive calls on the same CmdFan / CmdSensor object, the first with any of the seven outcomes and any output text, the second with a healthy command: the second call returns (no lock left held, no deadlock) and yields the value
 //zzv:bound T3 = (packages fans and internal) the callers CmdFan.SetPwm / GetPwm / GetRpm and CmdSensor.GetValue for the same outcomes: no panic, a failed command is an error, and each call starts the command at most once (so the call's duration is at most one command duration)
 //zzv:outside the actual wall-clock numbers (timeout + margin): the encoder has no time; what it decides is whether every wait in the call has a bound under the os/exec contract and how many commands one call starts. Scheduling delays, slow process start-up and the kernel are outside
 //zzv:stub exec.Cmd.Output returns one of the outcomes above, chosen by the harness
